@@ -19,3 +19,33 @@ package client
 //@ func (*client.Settings).Logger(s) (r)
 //@   pure
 //@   ensures r == s.logger
+
+// ---- property C09: an exchange succeeds only with a reply that answers the request sent
+
+//@ func (*client.Client).sendToKDC(cl, b, realm) (rb, err)
+//@   pure
+//@   trusted_frame network I/O only; the reply bytes are arbitrary (property C12 is about which server answers)
+
+//@ func (*client.Client).IsConfigured(cl) (ok, err)
+//@   pure
+//@   trusted_frame reads the client's credentials and configuration
+
+//@ func client.setPAData(cl, krberr, ASReq) (err)
+//@   modifies ASReq.KDCReqFields.PAData, elems(ASReq.KDCReqFields.PAData), cl.settings.assumePreAuthentication, cl.settings.preAuthEType
+//@   trusted_frame pre-authentication data is the only part of the request that is rewritten
+
+// Success of the AS exchange means the reply passed ASRep.Verify against the request sent with the client's
+// credentials; the postcondition restates what that proves about the returned reply (referrals recurse with the
+// same request body, at most six times).
+//@ func (*client.Client).ASExchange(cl, realm, ASReq, referral) (r, err)
+//@   modifies cl.settings.assumePreAuthentication, cl.settings.preAuthEType
+//@   trusted_frame see setPAData
+//@   decreases 6 - referral
+//@   ensures err == nil ==> names_equal(r.CName, ASReq.ReqBody.CName)
+//@   ensures err == nil ==> r.CRealm == ASReq.ReqBody.Realm
+//@   ensures err == nil ==> r.DecryptedEncPart.Nonce == ASReq.ReqBody.Nonce
+//@   ensures err == nil ==> names_equal(r.DecryptedEncPart.SName, ASReq.ReqBody.SName)
+//@   ensures err == nil ==> r.DecryptedEncPart.SRealm == ASReq.ReqBody.Realm
+//@   ensures err == nil && cl.Credentials.password == "" ==> exists j int :: 0 <= j && j < len(cl.Credentials.keytab.Entries)
+//@        && kmatch(cl.Credentials.keytab.Entries[j], r.CName, r.CRealm, r.EncPart.KVNO, r.EncPart.EType)
+//@        && krb_dec_ok(cl.Credentials.keytab.Entries[j].Key.KeyType, bytes(cl.Credentials.keytab.Entries[j].Key.KeyValue), 3, bytes(r.EncPart.Cipher))
